@@ -80,8 +80,11 @@ def make_tree(rng, typed, name, nmax=12, nmin=0, subclass=False):
         return objs[key]
 
     kinds = [rng.choice(["ka", "kb", "child"]) for _ in range(n)]
+    # some nodes carry a caller-defined node_id (unique within the tree); copies are new nodes with keys of their own
+    base = rng.choice([5000, 70000])
+    nids = [base + i if rng.random() < 0.3 else None for i in range(n)]
     nodes = gen.build(t, f, label, kind=(lambda i: kinds[i]) if typed else None,
-                      data_id=lambda i: None if ids[i] == hash(labs[i]) else ids[i])
+                      data_id=lambda i: None if ids[i] == hash(labs[i]) else ids[i], node_id=lambda i: nids[i])
     for nd in nodes:
         if rng.random() < 0.4:
             nd.set_meta("m0", rng.randrange(100))  # some source nodes carry metadata before they are copied
@@ -147,8 +150,8 @@ def run_case(case, res):
     try:
         with case_deadline(60):
             src_t, src_nodes = make_tree(rng, typed, "s", nmin=1)
-            # the target may belong to a user subclass of the tree class (routes that go through copy_to)
-            sub = route in ("tree_copy_to", "copy_to_self", "copy_to_noself") and rng.random() < 0.3
+            # the target may belong to a user subclass of the tree class (the source is of the base class)
+            sub = route in ("tree_copy_to", "copy_to_self", "copy_to_noself", "add_tree", "add_node") and rng.random() < 0.3
             other_t, other_nodes = make_tree(rng, typed, "o", nmax=6, subclass=sub)
             if sub:
                 res.count("subclass_targets")
@@ -172,7 +175,7 @@ def run_case(case, res):
                 kids = list(target.children)
                 opts = [None, None, True, False]
                 if kids:
-                    opts += [rng.randrange(len(kids)), rng.choice(kids), kids[0], kids[-1]]
+                    opts += [rng.randrange(len(kids)), rng.choice(kids), kids[0], kids[-1], -rng.randint(1, len(kids))]
                 return rng.choice(opts)
 
             def kids_of(x):
@@ -184,7 +187,7 @@ def run_case(case, res):
                 if before is True:
                     return 0
                 if isinstance(before, int):
-                    return before
+                    return before if before >= 0 else len(kids_before) + before  # "-1": before the last child
                 return next(i for i, c in enumerate(kids_before) if c is before)
 
             exp = None
@@ -430,6 +433,30 @@ def run_case(case, res):
                     bad.append("same-tree copy changed the source (beyond the added copy)")
                 res.count("same_tree_copies")
             elif not bad and route != "add_node_into_own_branch":
+                # ---------------- the same source copied a second time into the same foreign tree ------------------
+                ct = copy_side_tree
+                if ct is not None and ct is not src_t and route in ("copy_to_self", "add_node", "tree_copy_to", "add_tree", "copy_to_noself"):
+                    try:
+                        second = ct.add("second-target-" + str(rng.randrange(10**6)), **({"kind": "kx"} if typed else {}))
+                        if route in ("copy_to_self", "add_node"):
+                            second.add(src, deep=True)
+                        elif route == "copy_to_noself":
+                            src.copy_to(second, add_self=False, deep=True)
+                        else:
+                            second.add(src_t, deep=True)
+                        res.count("second_copies_into_same_tree")
+                        from .. import wf
+
+                        e1, _ = wf.wf_graph(ct)
+                        if e1:
+                            bad.append("after copying the same source a second time into the same tree: " + "; ".join(e1[:2]))
+                        second.remove()
+                    except Exception:
+                        from ..core import exc_in_library
+
+                        if not exc_in_library():
+                            raise
+                        bad.append("copying the same source a second time into the same tree raised: " + short_tb(4))
                 # ---------------- interference test ---------------------------------
                 copy_nodes = [x for g in got_nodes for x in [g] + list(g)]
                 snap_src = ident(src_t)
